@@ -236,6 +236,7 @@ def clause_lits(c):
 
 # ====================================================================== generators
 TRUE_CHILD_CLASS = "break-cycles-assertion-evidence-true-child"
+CYCLIC_ATOM_CLASS = "break-cycles-assertion-evidence-on-cyclic-atom"   # the name the same defect has under C01/C02/C07/C08
 
 
 def probe_true_child():
@@ -256,7 +257,7 @@ def probe_true_child():
         return False
 
 
-def gen_program(rng, max_atoms, det_facts=False):
+def gen_program(rng, max_atoms, det_facts=False, ev_choices=(0, 0, 1, 1, 2)):
     """Propositional ProbLog text: facts, ADs (with and without bodies), positive cycles,
     stratified negation, queries and evidence."""
     nf = rng.randint(1, max(1, min(5, max_atoms - 2)))
@@ -303,7 +304,7 @@ def gen_program(rng, max_atoms, det_facts=False):
     pool = derived + facts
     for q in rng.sample(pool, min(len(pool), rng.randint(1, 4))):
         lines.append("query(%s)." % q)
-    for e in rng.sample(pool, min(len(pool), rng.choice([0, 0, 1, 1, 2]))):
+    for e in rng.sample(pool, min(len(pool), rng.choice(list(ev_choices)))):
         lines.append("evidence(%s, %s)." % (e, rng.choice(["true", "false"])))
     return "\n".join(lines) + "\n"
 
@@ -421,6 +422,35 @@ def gen_dense_ops(rng):
     for j in rng.sample(range(ndef), rng.choice([0, 1, 2])):
         names.append((rng.choice(["ev+", "ev-"]), ("d", j), False))
     return {"atoms": [("fact",)] * natoms, "rules": rules, "names": names}
+
+
+def with_evidence_map(rng, ops, dense=False):
+    """Variant of a builder recipe for the propagate_evidence stream: at least one evidence name on a defined
+    node, evidence values read off the model of a random world (so the evidence is satisfiable and
+    LogicFormula.propagate has something to derive)."""
+    ndef = len(ops["rules"])
+    natoms = sum(a[1] if a[0] == "ad" else 1 for a in ops["atoms"])
+    names = [n for n in ops["names"] if n[0] == "query"]
+    have = {tuple(n[1]) for n in names}
+    pool = [("d", j) for j in range(ndef)] + ([] if dense else [("a", j) for j in range(natoms)])
+    for t in rng.sample(pool, min(len(pool), rng.choice([1, 2, 2, 3]))):
+        names.append((rng.choice(["ev+", "ev+", "ev-"]), t, (not dense) and rng.random() < 0.15))
+    # more queries: the look-up only matters for query nodes that reach a propagated node
+    for t in rng.sample(pool, min(len(pool), 2)):
+        if tuple(t) not in have:
+            names.append(("query", t, False))
+    out = dict(ops)
+    out["names"] = names
+    out["ev_assign"] = [rng.random() < 0.6 for _ in range(max(1, natoms))]
+    return out
+
+
+def with_named(rng, ops):
+    """keep_named=True stream: some LABEL_NAMED names on defined nodes (atoms get one from add_atom anyway)."""
+    ndef = len(ops["rules"])
+    out = dict(ops)
+    out["names"] = list(ops["names"]) + [("named", ("d", j), False) for j in rng.sample(range(ndef), min(ndef, rng.randint(1, 3)))]
+    return out
 
 
 def build_formula(ops):
@@ -717,7 +747,8 @@ def run(ctx):
                        "add_or(placeholder)/add_disjunct/add_name (cyclic, stratified); a case is non-trivial when the ground program is "
                        "cyclic or contains negation and has at least one internal node; distinct = distinct encoded ground programs")
     ctx.assumptions += [
-        "LogicFormula has no lookup_evidence (propagate_evidence=False, the default); keep_named=False",
+        "lookup_evidence values are TRUE/FALSE (what LogicFormula.propagate and ConstraintAD.add store); with a map the query names are "
+        "judged in the worlds that satisfy the evidence and the AD constraints, the evidence names in every world",
         "ground programs are stratified (a stable model exists for every assignment); others are skipped and counted",
         "hand model of _break_cycles corresponds to cycles.py as far as the generated inputs show (structural equality of the DAG)",
         "translator gen/c09_clark.py is unverified glue (fail-closed); Python encoders of LogicFormula/CNF objects",
@@ -736,7 +767,9 @@ def run(ctx):
     load_problog()
     tc = probe_true_child()
     ctx.cov["true_child_shortcut_in_evidence_pass"] = tc
-    listed = any(k.get("property") == "C09" and k.get("class") == TRUE_CHILD_CLASS for k in ctx.known)
+    listed_class = next((c for c in (TRUE_CHILD_CLASS, CYCLIC_ATOM_CLASS)
+                         if any(k.get("property") == "C09" and k.get("class") == c and k.get("status") == "known" for k in ctx.known)), None)
+    listed = listed_class is not None
     # programs with deterministic facts on cyclic atoms make the pinned _break_cycles raise (finding, see notes/C09.md);
     # they are generated once the finding is listed in known_findings.json or the fix is applied
     det_stream = tc or listed
@@ -770,6 +803,20 @@ def run(ctx):
             cases.append(("builder", gen_builder_ops(ctx.rng, ctx.rng.choice([4, 6, 8, max_ids - 2])), max_ids))
         for _ in range(ndense):
             cases.append(("builder", gen_dense_ops(ctx.rng), max_ids))
+        # propagate_evidence=True: the source formula carries lookup_evidence, _break_cycles consults it in the query pass
+        for _ in range(ctx.n(60, 2000)):
+            cases.append(("text+pe", gen_program(ctx.rng, ctx.rng.choice([5, 7, 9, max_ids - 1]), ev_choices=(1, 1, 2, 2, 3)), max_ids))
+        for _ in range(ctx.n(90, 3000)):
+            cases.append(("builder+pe", with_evidence_map(ctx.rng, gen_builder_ops(ctx.rng, ctx.rng.choice([4, 6, 8, max_ids - 2]))), max_ids))
+        for _ in range(ctx.n(50, 2000)):
+            cases.append(("builder+pe", with_evidence_map(ctx.rng, gen_dense_ops(ctx.rng), dense=True), max_ids))
+        # keep_named=True: the LABEL_NAMED names are broken like query names
+        for _ in range(ctx.n(30, 1000)):
+            ops = with_named(ctx.rng, gen_builder_ops(ctx.rng, ctx.rng.choice([4, 6, 8])))
+            if ctx.rng.random() < 0.4:
+                cases.append(("builder+pe+kn", with_evidence_map(ctx.rng, ops), max_ids))
+            else:
+                cases.append(("builder+kn", ops, max_ids))
     load_problog()   # before forking the workers
     ctx.log("running %d cases through LogicDAG.create_from / CNF.create_from and the reference semantics" % len(cases))
     results = pl.pmap(run_case, cases, jobs=ctx.n(6, 12), chunksize=8)
@@ -793,9 +840,17 @@ def run(ctx):
             exc = st.split(":")[1]
             true_child = any(nd[0] != "atom" and 0 in nd[1] for nd in res["F"])
             if exc == "AssertionError" and true_child and res["evidence_keys"] and not res.get("empty_disj") and not tc:
-                klass = TRUE_CHILD_CLASS
+                klass = listed_class or TRUE_CHILD_CLASS
                 what = ("LogicDAG.create_from raises AssertionError (get_node(0) from _break_cycles) on a ground program with evidence "
                         "and a node that has a TRUE child (deterministic fact on a cyclic atom)")
+                if not listed_class and "pe" in res["kind"].split("+"):
+                    # the propagate_evidence stream can meet the known defect without deterministic facts in the text; as for the
+                    # det_facts stream it is reported (KNOWN-FINDING) once known_findings.json lists the class for C09
+                    ctx.count("classified %s, not reported: class not in known_findings.json for C09 (see notes/C09.md)" % TRUE_CHILD_CLASS)
+                    if not any("held back" in n for n in ctx.notes):
+                        ctx.notes.append("held back: %s on %s" % (TRUE_CHILD_CLASS, str(replay_text(res))[:400]))
+                    err_cases.append(res)
+                    continue
             else:
                 klass = "break-cycles-raises-%s%s" % (exc, "-empty-disjunction" if res.get("empty_disj") else "")
                 what = "LogicDAG.create_from raised %s on a ground program%s" % (exc, " with an empty disjunction" if res.get("empty_disj") else "")
@@ -809,6 +864,14 @@ def run(ctx):
                  sample={"kind": res["kind"], "F": [list(map(str, nd)) for nd in res["F"]][:12], "D_nodes": len(res["D"]),
                          "clauses": len(res["clauses"]), "atoms": res["nids"]})
         ctx.count("cyclic" if res["cyclic"] else "acyclic")
+        kflags = set(res["kind"].split("+")[1:])
+        if "pe" in kflags:
+            ctx.count("propagate_evidence: source carries lookup_evidence")
+            ctx.count("lookup_evidence entries=%s" % (len(res["evm"]) if len(res["evm"]) < 4 else "4+"))
+            if not res.get("relevant_worlds"):
+                ctx.count("propagate_evidence: no world satisfies the evidence (query names unconstrained)")
+        if "kn" in kflags:
+            ctx.count("keep_named=True")
         if res["negation"]:
             ctx.count("with_negation")
         ctx.count("stratified (hypothesis of C09_break_cycles_correct holds)" if res["stratified"]
@@ -830,8 +893,12 @@ def run(ctx):
         return
 
     # 1. model of break_cycles: structural equality with the implementation's DAG
-    def break_line(res, tcflag, um):
+    def break_line(res, tcflag, um, with_map=True):
         g, e = res["ainfo"]
+        if with_map and "pe" in res["kind"].split("+"):
+            return "BREAKEV %d %d %s %s %s %s %s" % (1 if tcflag else 0, um, orc.enc_graph(res["F"]), orc.enc_ainfo(g, e),
+                                                     orc.enc_evm(res["evm"]),
+                                                     orc.enc_keys(res["labeled_keys"]), orc.enc_keys(res["evidence_keys"]))
         return "BREAK %d %d %s %s %s %s" % (1 if tcflag else 0, um, orc.enc_graph(res["F"]), orc.enc_ainfo(g, e),
                                             orc.enc_keys(res["labeled_keys"]), orc.enc_keys(res["evidence_keys"]))
 
@@ -865,11 +932,22 @@ def run(ctx):
     # how often does the `translation` memo change the result? (same model with use_memo = false)
     out0 = ctx.oracle(exe, [break_line(res, tc, 0) for res in usable])
     ctx.cov["memo_changes_dag"] = sum(1 for x, y in zip(out, out0) if x != y)
+    # how often does the lookup_evidence map change the result? (same model with the empty map = CyclesModel.break_cycles_m)
+    pe_cases = [(res, o) for res, o in zip(usable, out) if "pe" in res["kind"].split("+")]
+    if pe_cases:
+        outn = ctx.oracle(exe, [break_line(res, tc, 1, with_map=False) for res, _ in pe_cases])
+        ctx.cov["propagate_evidence_cases"] = len(pe_cases)
+        ctx.cov["evidence_map_changes_dag"] = sum(1 for (res, o), y in zip(pe_cases, outn) if o != y)
+        ctx.cov["break_model_equals_impl_with_evidence_map"] = sum(
+            1 for res, o in pe_cases if o.startswith("OK ") and (lambda r: (r.graph(), r.keys(), r.keys()))(orc.Reader(o[3:]))
+            == (res["D"], res["D_labeled"], res["D_evidence"]))
 
     # 2. validate_break on the implementation's DAG
     lines = []
     for res in usable:
-        pairs = list(zip(res["labeled_keys"], res["D_labeled"])) + list(zip(res["evidence_keys"], res["D_evidence"]))
+        pairs = list(zip(res["evidence_keys"], res["D_evidence"]))
+        if "pe" not in res["kind"].split("+"):   # with a lookup_evidence map the query names only agree in the worlds satisfying the evidence
+            pairs = list(zip(res["labeled_keys"], res["D_labeled"])) + pairs
         lines.append("VBREAK %s %s %s" % (orc.enc_graph(res["F"]), orc.enc_graph(res["D"]),
                                           orc.enc_list(pairs, lambda p: orc.enc_key(p[0]) + " " + orc.enc_key(p[1]))))
     out = ctx.oracle(exe, lines)
